@@ -674,3 +674,25 @@ VARIANTS += [
     dict(prop="C12", name="eq11-scan-from-zero", expect="SHAPE-eq11|find_smallest_n",
          edits=[dict(file=OIF, find="    for n in big_delta.. {", replace="    for n in big_delta + 1.. {")]),
 ]
+
+RVF = "ipa-core/src/protocol/basics/reveal.rs"
+GFF = "ipa-core/src/ff/galois_field.rs"
+HSF = "ipa-core/src/net/http_serde.rs"
+RHQ = "ipa-core/src/query/runner/hybrid.rs"
+VARIANTS += [
+    dict(prop="C17", name="records-stream-skips-parse-errors", expect="PARSE-err|RecordsStream:no-test-of-inner-result",
+         edits=[dict(file=SIF, find="            if let Some(v) = M::read_from(this.buffer) {\n                return Poll::Ready(Some(v.map_err(|e: T::DeserializationError| {\n                    crate::error::Error::ParseError(e.into())\n                })));\n            }", replace="            if let Some(Ok(v)) = M::read_from::<T>(this.buffer) {\n                return Poll::Ready(Some(Ok(v)));\n            }")]),
+    dict(prop="C08", name="galois-from-slice-full-length", expect="PAD-construct|Gf9Bit@convert::TryFrom::try_from",
+         edits=[dict(file=GFF, find="                    if value.len()<=usize::try_from(Self::BITS/8).unwrap() {", replace="                    if value.len()<={($bits+7)/8} {")]),
+    dict(prop="C09", name="query-string-epsilon-conditional", expect="FIELDS-query|HybridQueryParams.epsilon",
+         edits=[dict(file=HSF, find="                        \"&max_breakdown_key={}&with_dp={}&epsilon={}\",\n                        config.max_breakdown_key, config.with_dp, config.epsilon,\n                    )?;", replace="                        \"&max_breakdown_key={}&with_dp={}\",\n                        config.max_breakdown_key, config.with_dp,\n                    )?;\n                    if config.with_dp != 0 {\n                        write!(f, \"&epsilon={}\", config.epsilon)?;\n                    }")]),
+    dict(prop="C11", name="per-shard-size-bound", expect="BOUND-input|size-handed-through",
+         edits=[dict(file=RHQ, find=_json.load(open(_os.path.join(_os.path.dirname(_os.path.abspath(__file__)), "c11_size.json")))["seeded"][0], replace=_json.load(open(_os.path.join(_os.path.dirname(_os.path.abspath(__file__)), "c11_size.json")))["seeded"][1])]),
+]
+
+VARIANTS += [
+    dict(prop="C04", name="sharded-mac-reveal-uses-semi-honest", expect="WHO-reveal|AdditiveShare<F, N> / malicious::Upgraded<Sharded>",
+         edits=[dict(file=RVF, find="        ShardedUpgradedMaliciousContext<'a, F>: 'fut,\n    {\n        use crate::secret_sharing::replicated::malicious::ThisCodeIsAuthorizedToDowngradeFromMalicious;\n\n        let x_share = self.x().access_without_downgrade();\n        malicious_reveal(ctx, record_id, excluded, x_share).await", replace="        ShardedUpgradedMaliciousContext<'a, F>: 'fut,\n    {\n        use crate::secret_sharing::replicated::malicious::ThisCodeIsAuthorizedToDowngradeFromMalicious;\n\n        let x_share = self.x().access_without_downgrade();\n        semi_honest_reveal(ctx, record_id, excluded, x_share).await")]),
+    dict(prop="C02", name="dzkp-multiply-skips-proof", expect="WHO-multiply|SecureMul<dzkp_malicious::DZKPUpgraded>",
+         edits=[dict(file="ipa-core/src/protocol/basics/mul/dzkp_malicious.rs", find="        zkp_multiply(ctx, record_id, self, rhs).await", replace="        crate::protocol::basics::mul::semi_honest::sh_multiply(ctx, record_id, self, rhs).await")]),
+]
